@@ -3,6 +3,8 @@
 package main
 
 import (
+	"os"
+	"encoding/json"
 	"bytes"
 	"encoding/binary"
 	"fmt"
@@ -17,6 +19,57 @@ import (
 )
 
 func main() { Main(run) }
+
+// ---- replay support: `-extra replay=<file>` regenerates the stored run (same seed / tier / budget,
+// passed by the driver) and keeps only the stored case of the stored group
+type replaySel struct {
+	group string
+	idx   int
+}
+
+func parseReplay(extra string) (*replaySel, error) {
+	if !strings.HasPrefix(extra, "replay=") {
+		return nil, nil
+	}
+	raw, err := os.ReadFile(strings.TrimPrefix(extra, "replay="))
+	if err != nil {
+		return nil, err
+	}
+	var r struct {
+		Group string                 `json:"group"`
+		Case  map[string]interface{} `json:"case"`
+	}
+	if err := json.Unmarshal(raw, &r); err != nil {
+		return nil, err
+	}
+	idx, ok := r.Case["idx"].(float64)
+	if !ok {
+		return nil, fmt.Errorf("replay file has no case index")
+	}
+	return &replaySel{r.Group, int(idx)}, nil
+}
+
+// keep returns the items of one group as they go to the cases file
+func (s *replaySel) keep(group string, items []string) []string {
+	if s == nil {
+		return items
+	}
+	if group == s.group && s.idx < len(items) {
+		return items[s.idx : s.idx+1]
+	}
+	return nil
+}
+func (s *replaySel) keepJSON(m map[string][]map[string]interface{}) map[string][]map[string]interface{} {
+	if s == nil {
+		return m
+	}
+	out := map[string][]map[string]interface{}{}
+	if cs := m[s.group]; s.idx < len(cs) {
+		out[s.group] = cs[s.idx : s.idx+1]
+	}
+	return out
+}
+
 
 type key struct {
 	sec  cipher.SecKey
@@ -746,6 +799,10 @@ func (g *gen) decodeCases(n int, thorough bool) []dcase {
 
 func run(args []string) error {
 	f := ParseFlags("c09", args)
+	sel, err := parseReplay(f.Extra)
+	if err != nil {
+		return err
+	}
 	r := NewRng(f.Seed)
 	n := f.Budget(600, 20000)
 	thorough := f.Tier == "thorough" || f.Tier == "search"
@@ -790,7 +847,7 @@ func run(args []string) error {
 		if before != nil {
 			hex = fmt.Sprintf("%x", before)
 		}
-		caseJSON["txn"] = append(caseJSON["txn"], map[string]interface{}{"mutations": lab, "verify": cs, "verify_unsigned": cu,
+		caseJSON["txn"] = append(caseJSON["txn"], map[string]interface{}{"idx": i, "n": n, "mutations": lab, "verify": cs, "verify_unsigned": cu,
 			"n_in": len(t.In), "n_out": len(t.Out), "n_sigs": len(t.Sigs), "txn_hex": hex})
 		o.Count(fmt.Sprint("txn", lab, cs, cu, len(t.In), len(t.Out)), true)
 		hist.Add("Verify:" + cs)
@@ -831,7 +888,7 @@ func run(args []string) error {
 			} else if ev != nil {
 				cv = errText(ev)
 			}
-			caseJSON["vis"] = append(caseJSON["vis"], map[string]interface{}{"mutations": lab, "ux": vl, "result": cv, "txn_hex": hex})
+			caseJSON["vis"] = append(caseJSON["vis"], map[string]interface{}{"idx": len(vis) - 1, "n": n, "mutations": lab, "ux": vl, "result": cv, "txn_hex": hex})
 			o.Count(fmt.Sprint("vis", lab, vl, cv), true)
 			hist.Add("VerifyInputSignatures:" + cv)
 		}
@@ -847,7 +904,7 @@ func run(args []string) error {
 		fa := g.collect(t, idtab{})
 		os, ou, cs, cu := observe(t)
 		bigs = append(bigs, Tuple(fa.term(), os, ou))
-		caseJSON["big"] = append(caseJSON["big"], map[string]interface{}{"shape": label, "verify": cs, "verify_unsigned": cu})
+		caseJSON["big"] = append(caseJSON["big"], map[string]interface{}{"idx": len(bigs) - 1, "n": n, "shape": label, "verify": cs, "verify_unsigned": cu})
 		o.Count(fmt.Sprint("big", label), true)
 		hist.Add("big:" + label + ":" + cs + "/" + cu)
 	}
@@ -884,18 +941,23 @@ func run(args []string) error {
 		} else if decoded {
 			res = "decoded"
 		}
-		caseJSON["dec"] = append(caseJSON["dec"], map[string]interface{}{"kind": d.label, "result": res, "canonical": canon, "bytes_hex": fmt.Sprintf("%x", d.bs)})
+		caseJSON["dec"] = append(caseJSON["dec"], map[string]interface{}{"idx": len(decs) - 1, "n": n, "kind": d.label, "result": res, "canonical": canon, "bytes_hex": fmt.Sprintf("%x", d.bs)})
 		o.Count(fmt.Sprintf("dec %x", d.bs), true)
 		hist.Add("decode:" + d.label + ":" + res)
 	}
 
-	o.Def("cases_txn", "txn * res error * res error", txns)
-	o.Def("cases_big", "txn * res error * res error", bigs)
-	o.Def("cases_vis", "Z * list (Z * Z) * res error", vis)
-	o.Def("cases_dec", "Z * bool * bool * bool * bool * Z * Z * Z * list Z * list Z", decs)
+	if sel != nil && sel.group == "vis" {
+		// a VerifyInputSignatures case refers to its transaction by index: keep them all
+		o.Def("cases_txn", "txn * res error * res error", txns)
+	} else {
+		o.Def("cases_txn", "txn * res error * res error", sel.keep("txn", txns))
+	}
+	o.Def("cases_big", "txn * res error * res error", sel.keep("big", bigs))
+	o.Def("cases_vis", "Z * list (Z * Z) * res error", sel.keep("vis", vis))
+	o.Def("cases_dec", "Z * bool * bool * bool * bool * Z * Z * Z * list Z * list Z", sel.keep("dec", decs))
 	o.Side["rule"] = "generated transactions: a valid signed / unsigned / partially signed transaction spending generated unspent outputs, then 0-3 mutations (no inputs, no outputs, signature count, duplicate input, duplicate / near-duplicate output, zero-coin output, coin sum around 2^64, type, length field, inner hash, corrupted / null / swapped / copied / random / high-s / wrong-key signatures), header recomputed after most content mutations so that later rules are reached; boundary array sizes 65535/65536; byte strings: valid encodings, every truncation, appended bytes, length-prefix surgery, byte flips, random. Every case counts (distinct by mutation labels + verdicts / by byte string)."
 	o.Side["distribution"] = hist.Sorted()
 	o.Side["samples"] = samples
-	o.Side["cases"] = caseJSON
+	o.Side["cases"] = sel.keepJSON(caseJSON)
 	return o.Write(f.Out, f.JSON)
 }
